@@ -31,8 +31,57 @@ inline MassProperties randomMassProps(Rng& r) {
 }
 
 static const char* MOBTYPES[] = {"Pin", "Slider", "Universal", "Cylinder", "BendStretch", "Planar", "Gimbal", "Bushing",
-    "Ball", "Free", "Translation", "Screw", "Ellipsoid", "LineOrientation", "FreeLine", "SphericalCoords", "Weld"};
-static const int NMOBTYPES = 17;
+    "Ball", "Free", "Translation", "Screw", "Ellipsoid", "LineOrientation", "FreeLine", "SphericalCoords", "Weld",
+    "FunctionBased", "CantileverFreeBeam", "Custom"};
+static const int NMOBTYPES = 17;        // the built-in types of the model catalogues (coq/C05)
+static const int NMOBTYPES_ALL = 20;    // + FunctionBased, CantileverFreeBeam, Custom: only for harnesses whose model is type-agnostic
+                                        // (per-body data taken from the implementation) or that evaluate predicates on the implementation alone
+
+// ---- functions for the FunctionBased mobilizer of the generators (derivatives of every order)
+struct VfConst : public Function {
+    Real c; explicit VfConst(Real c = 0) : c(c) {}
+    Real calcValue(const Vector&) const override { return c; }
+    Real calcDerivative(const Array_<int>&, const Vector&) const override { return 0; }
+    int getArgumentSize() const override { return 0; }
+    int getMaxDerivativeOrder() const override { return 10; }
+    Function* clone() const override { return new VfConst(*this); }
+};
+struct VfQuad : public Function {      // a x + b x^2
+    Real a, b; VfQuad(Real a, Real b) : a(a), b(b) {}
+    Real calcValue(const Vector& x) const override { return a * x[0] + b * x[0] * x[0]; }
+    Real calcDerivative(const Array_<int>& d, const Vector& x) const override { return d.size() == 1 ? a + 2 * b * x[0] : (d.size() == 2 ? 2 * b : 0); }
+    int getArgumentSize() const override { return 1; }
+    int getMaxDerivativeOrder() const override { return 10; }
+    Function* clone() const override { return new VfQuad(*this); }
+};
+struct VfProd : public Function {      // c x0 x1
+    Real c; explicit VfProd(Real c) : c(c) {}
+    Real calcValue(const Vector& x) const override { return c * x[0] * x[1]; }
+    Real calcDerivative(const Array_<int>& d, const Vector& x) const override {
+        if (d.size() == 1) return c * x[1 - d[0]];
+        if (d.size() == 2) return d[0] != d[1] ? c : 0;
+        return 0; }
+    int getArgumentSize() const override { return 2; }
+    int getMaxDerivativeOrder() const override { return 10; }
+    Function* clone() const override { return new VfProd(*this); }
+};
+// ---- a small user-defined mobilizer: rotation q0 about Fz, translation q1 + c q0^2 along Fz (H depends on q, HDot on u)
+class VfCustomImpl : public MobilizedBody::Custom::Implementation {
+public:
+    Real c;
+    VfCustomImpl(SimbodyMatterSubsystem& m, Real c) : Implementation(m, 2, 2, 1), c(c) {}
+    Implementation* clone() const override { return new VfCustomImpl(*this); }
+    Transform calcMobilizerTransformFromQ(const State&, int, const Real* q) const override {
+        return Transform(Rotation(q[0], ZAxis), Vec3(0, 0, q[1] + c * q[0] * q[0])); }
+    SpatialVec multiplyByHMatrix(const State& s, int, const Real* u) const override {
+        const Vector q = getQ(s); return SpatialVec(Vec3(0, 0, u[0]), Vec3(0, 0, 2 * c * q[0] * u[0] + u[1])); }
+    void multiplyByHTranspose(const State& s, const SpatialVec& F, int, Real* f) const override {
+        const Vector q = getQ(s); f[0] = F[0][2] + 2 * c * q[0] * F[1][2]; f[1] = F[1][2]; }
+    SpatialVec multiplyByHDotMatrix(const State& s, int, const Real* u) const override {
+        const Vector v = getU(s); return SpatialVec(Vec3(0), Vec3(0, 0, 2 * c * v[0] * u[0])); }
+    void multiplyByHDotTranspose(const State& s, const SpatialVec& F, int, Real* f) const override {
+        const Vector v = getU(s); f[0] = 2 * c * v[0] * F[1][2]; f[1] = 0; }
+};
 
 inline MobilizedBody addMobod(int type, MobilizedBody& parent, const Transform& xp, const Body& b, const Transform& xb, bool rev) {
     MobilizedBody::Direction d = rev ? MobilizedBody::Reverse : MobilizedBody::Forward;
@@ -53,6 +102,17 @@ inline MobilizedBody addMobod(int type, MobilizedBody& parent, const Transform& 
     case 13: return MobilizedBody::LineOrientation(parent, xp, b, xb, d);
     case 14: return MobilizedBody::FreeLine(parent, xp, b, xb, d);
     case 15: return MobilizedBody::SphericalCoords(parent, xp, b, xb, d);
+    case 17: {   // FunctionBased, 3 mobilities: rotations (x: quadratic in q0, y: 0, z: q1), translations (x: 0.4 q0 q1, y: quadratic in q2, z: 0)
+        Array_<const Function*> f; Array_<Array_<int> > ci(6);
+        f.push_back(new VfQuad(1, 0.2)); ci[0].push_back(0);
+        f.push_back(new VfConst(0));
+        f.push_back(new VfQuad(1, 0)); ci[2].push_back(1);
+        f.push_back(new VfProd(0.4)); ci[3].push_back(0); ci[3].push_back(1);
+        f.push_back(new VfQuad(0.5, 0.1)); ci[4].push_back(2);
+        f.push_back(new VfConst(0));
+        return MobilizedBody::FunctionBased(parent, xp, b, xb, 3, f, ci, d); }
+    case 18: return MobilizedBody::CantileverFreeBeam(parent, xp, b, xb, 1.3, d);
+    case 19: return MobilizedBody::Custom(parent, new VfCustomImpl(parent.updMatterSubsystem(), 0.35), xp, b, xb, d);
     default: return MobilizedBody::Weld(parent, xp, b, xb);
     }
 }
@@ -84,8 +144,9 @@ struct RandSystem {
     // per body (in creation order) the mobilizer options used; optRng != 0 makes build() draw non-default options for half of the
     // Screw / Ellipsoid / SphericalCoords mobilizers from that separate stream (the main stream is consumed exactly as without it)
     std::vector<std::vector<Real> > pars; Rng* optRng;
+    int ntypes;   // NMOBTYPES (default) or NMOBTYPES_ALL
     State state;
-    RandSystem() : matter(sys), forces(sys), euler(false), optRng(0) {}
+    RandSystem() : matter(sys), forces(sys), euler(false), optRng(0), ntypes(NMOBTYPES) {}
     // nb bodies (besides Ground); shape: 0 chain, 1 star, 2 random branching
     // reloc (optional): rigid transform applied to every Ground-attached inboard frame (relocates the whole model)
     void build(Rng& r, int nb, int shape, int onlyType = -1, const Transform* reloc = 0, int forceEuler = -1) {
@@ -95,7 +156,7 @@ struct RandSystem {
             int p = (shape == 0) ? i : (shape == 1 ? (i == 0 ? 0 : 1) : r.I(0, i));   // parent MobilizedBodyIndex (0 = Ground)
             if (shape == 1 && i == 0) p = 0;
             if (leafOnly[p]) p = 0;
-            int ty = onlyType >= 0 ? onlyType : r.I(0, NMOBTYPES - 1); bool rev = r.I(0, 3) == 0;
+            int ty = onlyType >= 0 ? onlyType : r.I(0, ntypes - 1); bool rev = r.I(0, 3) == 0;
             Body::Rigid body(randomMassProps(r));
             Transform xpf = r.xf(); Transform xbm = r.xf();
             // special frame cases: identity inboard/outboard frames and translation-only frames select simbody's
